@@ -7,4 +7,13 @@ example : crc32_catalogue = some "CRC_32_ISCSI" := rfl
 example : crc_no = some 0 ∧ crc_16 = some 1 ∧ crc_32 = some 2 := by decide
 example : ser_primary = some "self.version|self.bundle_control_flags|self.crc.to_code()|self.destination|self.source|self.report_to|self.creation_timestamp|(self.lifetime.as_millis()asu64)|self.fragmentation_offset|self.total_data_length|serde_bytes::Bytes::new(crc_bytes)" := rfl
 example : ser_canonical = some "self.block_type|self.block_number|self.block_control_flags|crc_code|serde_bytes::Bytes::new(payload)|serde_bytes::Bytes::new(payload)|serde_bytes::Bytes::new(&serde_cbor::to_vec(&self.data).unwrap(),)|serde_bytes::Bytes::new(crc_bytes)" := rfl
+/-! the vendored `crc` / `crc-catalog` sources named by Cargo.lock say what Model/CrcTable.lean models -/
+example : crc_crate_default_impl = some "Table<1>" := rfl
+example : crc16_crate_update_reflect = some "lettable_index=((crc^bytes[i]asu16)&0xFF)asusize;crc=table[0][table_index]^(crc>>8);" := rfl
+example : crc32_crate_update_reflect = some "lettable_index=((crc^bytes[i]asu32)&0xFF)asusize;crc=table[0][table_index]^(crc>>8);" := rfl
+example : crc16_crate_util_reflect = some "letmuti=0;whilei<8{value=(value>>1)^((value&1)*poly);i+=1;}" := rfl
+example : crc32_crate_util_reflect = some "letmuti=0;whilei<8{value=(value>>1)^((value&1)*poly);i+=1;}" := rfl
+example : crc16_crate_table_lane0 = some "crc16(poly,reflect,iasu16)" ∧ crc32_crate_table_lane0 = some "crc32(poly,reflect,iasu32)" := ⟨rfl, rfl⟩
+example : crc_16_ibm_sdlc_params = some "width:16,poly:0x1021,init:0xffff,refin:true,refout:true,xorout:0xffff,check:0x906e,residue:0xf0b8" := rfl
+example : crc_32_iscsi_params = some "width:32,poly:0x1edc6f41,init:0xffffffff,refin:true,refout:true,xorout:0xffffffff,check:0xe3069283,residue:0xb798b438" := rfl
 end Bp7.ExtractedOk.C04
